@@ -66,6 +66,8 @@ def _run_real(simcls, block, steps, regmap=None, memmap=None, default=0, track='
     `track='all'` traces every wire the simulator can trace."""
     regmap = dict(regmap or {})
     memmap = {m: dict(v) for m, v in (memmap or {}).items()}
+    # bool_inputs: the values of 1-bit inputs are given as Python bools (`sim.step({en: x > 4})`), which every step accepts
+    one_bit = {w.name for w in block.wirevector_subset(pyrtl.Input) if len(w) == 1} if kw.pop('bool_inputs', False) else set()
     try:
         if simcls is pyrtl.CompiledSimulation:
             tracer = pyrtl.SimulationTrace(wires_to_track=None if track != 'all' else 'all', block=block)
@@ -81,7 +83,7 @@ def _run_real(simcls, block, steps, regmap=None, memmap=None, default=0, track='
     asserted = []
     for k, s in enumerate(steps):
         try:
-            sim.step(dict(s))
+            sim.step({n_: (bool(v_) if n_ in one_bit else v_) for n_, v_ in s.items()})
         except VerifRtlAssertion:
             asserted.append(k)      # the state has advanced; a testbench that catches the assertion keeps stepping
         except Exception as e:  # noqa
